@@ -153,6 +153,8 @@ def run(pid, tier):
                 scenarios.append(runlib.wide_scenario(129, chk.seed + 3, fail_at=3, mode="all"))
         if pid == "C06":
             scenarios.append(runlib.wide_scenario(140, chk.seed, fail_at=5, mode="all"))
+            scenarios.append(runlib.background_process_scenario(chk.seed))
+            scenarios.append(runlib.chmod_scenario(chk.seed))
         if pid == "C06":
             # every member of a group has exited (one of them non-zero) before the run joins any of them
             for k, (n, ff) in enumerate([(1, True), (2, True), (3, False), (1, False)] + ([(5, True), (8, False), (2, False), (4, True)] if tier == "thorough" else [])):
